@@ -210,3 +210,10 @@ V('C06', 'script-size-limit-inclusive', EVAL, 'if len(scriptIn) > MAX_SCRIPT_SIZ
 V('C06', 'max-selects-smaller', EVAL, "        if bn1 > bn2:\n            bn = bn1\n        else:\n            bn = bn2", "        if bn1 > bn2:\n            bn = bn2\n        else:\n            bn = bn1", 'C06.O1', scope='_BinOp')
 V('C06', 'opcode-renumbered', SCRIPT, 'OP_NIP = CScriptOp(0x77)', 'OP_NIP = CScriptOp(0x78)', 'C06.D2')
 V('C06', 'hash160-arm-uses-hash256', EVAL, 'stack.append(bitcoin.core.serialize.Hash160(stack.pop()))', 'stack.append(bitcoin.core.serialize.Hash(stack.pop()))', 'C06.H1', scope='_EvalScript')
+
+# C01.E2 (escape) variants
+V('C01', 'txout-constructor-rejects-negative', CORE, "        object.__setattr__(self, 'nValue', int(nValue))", "        if nValue < -1:\n            raise ValueError('CTxOut: nValue out of range')\n        object.__setattr__(self, 'nValue', int(nValue))", 'C01.E2', scope='CTxOut.__init__')
+V('C01', 'reader-asserts-version', CORE, '        nVersion = struct.unpack(b"<i", ser_read(f,4))[0]\n        pos = f.tell()', '        nVersion = struct.unpack(b"<i", ser_read(f,4))[0]\n        assert nVersion > 0\n        pos = f.tell()', 'C01.E2', scope='CTransaction.stream_deserialize')
+V('C01', 'sequence-read-as-64bit-with-range-check', CORE, 'nSequence = struct.unpack(b"<I", ser_read(f,4))[0]', 'nSequence = struct.unpack(b"<i", ser_read(f,4))[0]', ['C01.E2', 'C01.L'], scope='CTxIn.stream_deserialize')
+V('C01', 'block-reader-checks-merkle', CORE, "        vtx = VectorSerializer.stream_deserialize(CTransaction, f)\n        vMerkleTree = tuple(CBlock.build_merkle_tree_from_txs(vtx))", "        vtx = VectorSerializer.stream_deserialize(CTransaction, f)\n        vMerkleTree = tuple(CBlock.build_merkle_tree_from_txs(vtx))\n        if vtx and vMerkleTree[-1] != self.hashMerkleRoot:\n            raise CheckBlockError('bad merkle root')", 'C01.E2', scope='CBlock.stream_deserialize')
+V('C01', 'ser_read-raises-valueerror-on-oversize', SER, "raise SerializationError('Asked to read 0x%x bytes; MAX_SIZE exceeded' % n)", "raise ValueError('Asked to read 0x%x bytes; MAX_SIZE exceeded' % n)", ['C01.E2', 'C01.E1'], scope='ser_read')
